@@ -410,6 +410,11 @@ def gen_names_key(rng, ref):
         return {"t": "names", "k": ["nosuchphase"], "bare": True}, "names/unknown"
     if names and r < 80:
         return {"t": "names", "k": [names[rng.integers(len(names))]], "bare": bool(rng.integers(2))}, "names/one"
+    if names and rng.integers(4) == 0:
+        # both keywords in either order, alone or around a phase name: the union must not depend on the order
+        k = ["not_indexed", "indexed"] + ([names[rng.integers(len(names))]] if rng.integers(2) else [])
+        k = [k[i] for i in rng.permutation(len(k))]
+        return {"t": "names", "k": k, "bare": False}, "names/tuple-keywords"
     if names:
         k = [names[rng.integers(len(names))] for _ in range(int(rng.integers(2, 4)))]
         if rng.integers(3) == 0:
